@@ -29,6 +29,8 @@ type BlockRec struct {
 	Pre      StateDump // state at Parent (factory's view)
 	Post     StateDump // state at Block
 	Deputy   int
+	Miner    *Deputy   // who mined it (genesis deputy or a user elected in a later term)
+	Term     []*Deputy // all deputies of the term that governs this block, in rank order
 	IsReward bool
 	IsSnap   bool
 }
@@ -88,7 +90,15 @@ func chainRun(c *Ctx, net *Net, g *TxGen, f *Factory, o ChainRunOpts) {
 		if now < int64(parent.Time()) {
 			now = int64(parent.Time())
 		}
-		d := net.nextDeputy(parent, now)
+		who, d, term, terr := f.InTurn(parent, now)
+		if terr != nil {
+			c.Probe("mine_error")
+			c.Keep["mine_error"] = terr.Error()
+			return
+		}
+		if d >= len(net.Deputies) {
+			c.Probe("block_mined_by_elected_user")
+		}
 		var cands types.Transactions
 		if h == 1 {
 			cands = append(cands, g.FundingTxs(now)...)
@@ -122,7 +132,7 @@ func chainRun(c *Ctx, net *Net, g *TxGen, f *Factory, o ChainRunOpts) {
 			return
 		}
 		g.NoteIncluded(blk.Txs)
-		rec := &BlockRec{Net: net, Gen: g, F: f, Parent: parent, Block: blk, Cands: cands, Invalid: invalid, Deputy: d,
+		rec := &BlockRec{Net: net, Gen: g, F: f, Parent: parent, Block: blk, Cands: cands, Invalid: invalid, Deputy: d, Miner: who, Term: term,
 			IsReward: deputynode.IsRewardBlock(blk.Height()), IsSnap: deputynode.IsSnapshotBlock(blk.Height())}
 		if rec.IsReward {
 			c.Probe("reward_block")
@@ -143,6 +153,16 @@ func chainRun(c *Ctx, net *Net, g *TxGen, f *Factory, o ChainRunOpts) {
 				rec.Pre = DumpState(f.DB, parent.Hash(), rec.Universe, rec.Keys)
 				rec.Post = DumpState(f.DB, blk.Hash(), rec.Universe, rec.Keys)
 			})
+		}
+		if d >= len(net.Deputies) && rec.Pre != nil {
+			// an elected user's income address is whatever its candidate profile says before the block
+			inc := who.Miner.Addr
+			if s := profileField(rec.Pre[who.Miner.Addr]["profile"], types.CandidateKeyIncomeAddress); s != "" {
+				if a, err := common.StringToAddress(s); err == nil {
+					inc = a
+				}
+			}
+			rec.Miner = &Deputy{Node: who.Node, Miner: who.Miner, Income: &keyInfo{Addr: inc}, Rank: who.Rank}
 		}
 		if o.OnBlock != nil && !o.OnBlock(rec) {
 			return
